@@ -23,6 +23,13 @@ def random_pda(rng, nq, nsig, ngam, nt, gamma=None, p_eps=0.35, kinds=None):
         else:
             u, v = None, None
         T.append((p, a, u, q, v))
+    # several labels on one edge: duplicate some moves with another input letter / pushed symbol
+    for _ in range(rng.choice([0, 0, 1, 2])):
+        if T and G:
+            (p, a, u, q, v) = rng.choice(T)
+            a2 = rng.choice(list(S) + [a]) if S else a
+            v2 = rng.choice(G) if v is not None else v
+            T.append((p, a2, u, q, v2))
     nf = rng.choice([0, 1, 1, 1, 2, 3])
     F = rng.sample(Q, min(nf, nq))
     return pd.make(Q, S, G, T, Q[0], F)
@@ -53,6 +60,11 @@ def hostile_pdas():
     yield ('no_final', pd.make(['q0', 'q1'], 'a', 'X', [('q0', 'a', None, 'q1', 'X')], 'q0', []))
     yield ('several_final', pd.make(['q0', 'q1', 'q2'], 'ab', 'X', [('q0', 'a', None, 'q1', 'X'), ('q1', 'b', 'X', 'q2', None), ('q2', 'a', None, 'q0', None), ('q1', 'a', None, 'q1', 'X')], 'q0', ['q0', 'q1', 'q2']))
     yield ('initial_final', pd.make(['q0'], 'a', 'X', [('q0', 'a', None, 'q0', 'X'), ('q0', 'a', 'X', 'q0', None)], 'q0', ['q0']))
+    # two replace moves on ONE edge that pop the same symbol, read different letters and push different symbols
+    yield ('parallel_replace_moves', pd.make(['q0', 'q1', 'q2', 'q3'], 'abcd', 'XYZ', [('q0', None, None, 'q1', 'X'), ('q1', 'a', 'X', 'q2', 'Y'), ('q1', 'b', 'X', 'q2', 'Z'),
+                                            ('q2', 'c', 'Y', 'q3', None), ('q2', 'd', 'Z', 'q3', None)], 'q0', ['q3']))
+    yield ('parallel_noop_moves', pd.make(['q0', 'q1', 'q2'], 'ab', 'X', [('q0', 'a', None, 'q1', None), ('q0', 'b', None, 'q1', None), ('q1', 'a', None, 'q2', 'X'), ('q1', 'b', None, 'q0', None),
+                                          ('q2', None, 'X', 'q0', None)], 'q0', ['q1']))
     # replace and no-op moves only
     yield ('replace_noop', pd.make(['q0', 'q1', 'q2'], 'ab', 'XY', [('q0', 'a', None, 'q1', 'X'), ('q1', 'b', 'X', 'q1', 'Y'), ('q1', 'a', 'Y', 'q2', 'X'), ('q2', 'b', None, 'q0', None), ('q2', None, None, 'q1', None)], 'q0', ['q2']))
     # marker collisions
